@@ -73,7 +73,7 @@ def run(ctx):
                    "coalesce, followed by delete_nth / delete_host / sort / uniq, (c) from raw range-record sequences "
                    "(adjacent uncoalesced ranges, mixed widths, numbers around 10^k, 2^32, 2^63, 2^64-2), (d) from names "
                    "whose text ends within +-2 of 16..1024 bytes, optionally followed by more hosts, (e) exhaustively: every "
-                   "sequence of up to 2 (quick) / 4 (thorough) records over 8 record shapes; every list is "
+                   "sequence of up to 2 (quick) / 3 (thorough, plus a sample of 4-5) records over 8 record shapes; every list is "
                    "printed in both forms for EVERY n from 1 to text length + 2; one evaluation = one (list, form, n) "
                    "call; non-trivial = a list with >= 2 range records whose compressed text has a bracket or whose "
                    "expanded text has >= 3 hosts; distinct = distinct record dump"}
@@ -83,7 +83,7 @@ def run(ctx):
         variant = pr.probe_variant()
         cov["variant_detected"] = {"D14 repaired (ret >= m)": variant == "fixed"}
         ctx.log("hostlist_deranged_string behaves as the `%s` variant: the model runs with that switch" % variant)
-        gen = Gen(rng, cap=900 if ctx.quick() else 2500)
+        gen = Gen(rng, cap=900 if ctx.quick() else 2000)
         cases = []
         if replay_case is not None:
             cases.append({"origin": replay_case.get("origin", "replay"), "ops": replay_case["ops"],
@@ -92,8 +92,14 @@ def run(ctx):
             for s in FIXED + load_corpus():
                 cases.append({"origin": "corpus", "ops": ["create " + hx(s)], "desc": s[:200].decode("latin1")})
             cases.append({"origin": "corpus", "ops": ["create " + hx(b"foo[1-2]-[0-1]")], "desc": "foo[1-2]-[0-1]"})
-            cases.extend(small_scope(2 if ctx.quick() else 4))
-            n = 300 if ctx.quick() else 6000
+            cases.extend(small_scope(2 if ctx.quick() else 3))
+            if not ctx.quick():
+                from vlib.printcheck import SHAPES
+                for _ in range(1200):           # a sample of the 4- and 5-record sequences over the same shapes
+                    t = [rng.choice(SHAPES) for _ in range(rng.choice([4, 4, 5]))]
+                    cases.append({"origin": "small-scope", "ops": ["pmk " + " ".join(r.field() for r in t)],
+                                  "desc": " ".join(r.field() for r in t)})
+            n = 300 if ctx.quick() else 2600
             for i in range(n):
                 r = rng.random()
                 cases.append(gen.create() if r < 0.38 else gen.pushes() if r < 0.62 else gen.raw() if r < 0.88
@@ -197,7 +203,8 @@ def sweep_lists(ctx, pr, cases, exact, cov, dist):
                 judge_sweep(ctx, kind, recs, len(text), ent, dict(case, text=text[:300].decode("latin1")), dist)
             # parse back (real parser in process; Lean parser in the model)
             ib, mb = names["pback " + kind], mnames["pback " + kind]
-            if ib.split()[:2] != mb.split()[:2]:
+            # (`ub:` / `diverge` = the parser model's recorded defects D18/D25, C01/C15's concern and probed there)
+            if ib.split()[:2] != mb.split()[:2] and not mb.startswith(("ub:", "diverge")):
                 ctx.disagreement("print model (Lean parser) vs hostlist_create on the printed text (%s)" % kname(kind),
                                  "impl `%s` model `%s`" % (ib[:200], mb[:200]), case)
             if not (c["origin"] == "raw" and empty_name):
@@ -342,12 +349,25 @@ def cli_check(ctx, pr, gen, dist, cov, only=None):
     # the list pdsh holds = hostlist_create(expr) for plain words; records through the harness, expectation from the model
     seqs = [["create " + hx(s), "dump"] for _, s in jobs]
     res = run_batch([pr.exe], seqs, env=pr.env, timeout=300)
+    # pdsh -w: wcoll_expand shifts every host out of that list and pushes it again (numbers > 2^25 and second
+    # brackets make the records differ from hostlist_create's): the list opt_list prints is rebuilt the same way
+    seqs2, keep = [], []
     for (flag, s), (ans, crash) in zip(jobs, res):
         if crash is not None or len(ans) != 2 or parse_dump(ans[1]) is None:
             continue
         recs = parse_dump(ans[1])[1]
+        if sum(r.count() for r in recs) > 3000 or long_name(recs):
+            continue
+        seqs2.append(["new"] + ["push " + hx(h) for h in all_hosts(recs)] + ["dump"])
+        keep.append((flag, s))
+    res2 = run_batch([pr.exe], seqs2, env=pr.env, timeout=300)
+    for (flag, s), (ans, crash) in zip(keep, res2):
+        if crash is not None or not ans or parse_dump(ans[-1]) is None or any(a.startswith("-1") for a in ans[1:-1]):
+            continue
+        ans = [ans[0], ans[-1]]
+        recs = parse_dump(ans[1])[1]
         if meta_name(recs) or meta_prefix(recs) or long_name(recs):
-            continue                      # two-bracket leftovers are re-expanded by pdsh -w (C01/C02), not this list
+            continue                      # names with brackets left after two expansions: outside plain target words
         m = ctx.model("print", "list %s\npcli %s\nptext %s\n" % (ans[1], flag[1], "d" if flag == "-Q" else "r"),
                       args=["model", pr.variant])
         full = unhx(m[2].split()[1])
